@@ -1,4 +1,7 @@
-use super::{SolverState, clause::WatchedLiterals};
+use super::{
+    SolverState,
+    clause::{Clause, WatchedLiterals},
+};
 use crate::{
     Candidates, Dependencies, DependencyProvider, NameId, Requirement, SolvableId, SolverCache,
     StringId, VersionSetId,
@@ -337,6 +340,22 @@ impl<'a, D: DependencyProvider> Encoder<'a, D> {
         for &forbidden_candidate in candidates {
             let forbidden_candidate_var =
                 self.state.variable_map.intern_solvable(forbidden_candidate);
+
+            if forbidden_candidate_var == variable {
+                // The solvable does not satisfy its own constraint, so it can never be
+                // installed. A binary clause cannot watch the same literal twice, so this
+                // is encoded as an assertion (a unit clause) instead.
+                let clause_id = self.state.clauses.alloc(
+                    None,
+                    Clause::Constrains(variable, forbidden_candidate_var, constraint),
+                );
+                self.state.negative_assertions.push((variable, clause_id));
+                if self.state.decision_tracker.assigned_value(variable) == Some(true) {
+                    self.conflicting_clauses.push(clause_id);
+                }
+                continue;
+            }
+
             let (watched_literals, conflict, kind) = WatchedLiterals::constrains(
                 variable,
                 forbidden_candidate_var,
